@@ -2,6 +2,7 @@
 from __future__ import annotations
 
 import ast
+import copy
 from typing import Any, Iterable, Optional
 
 from ..model import AnalysisError, FuncInfo, Program, dotted, norm, stmts_no_doc, walk_no_nested
@@ -214,6 +215,13 @@ def rule_ed_guard(ctx: RuleContext, p: Program, fns: list[FuncInfo], rid: str) -
                 par = parents[id(cur)]
                 if isinstance(par, ast.If) and (cur in par.body or any(cur is x for b in par.body for x in ast.walk(b))):
                     t = par.test
+                    if isinstance(t, ast.BoolOp) and isinstance(t.op, ast.Or):
+                        # `key not in <texts read> or printed != texts[key]`: a path that was never read is always written
+                        cmps = [v for v in t.values if isinstance(v, ast.Compare) and len(v.ops) == 1 and isinstance(v.ops[0], ast.NotEq)]
+                        rest = [v for v in t.values if v not in cmps]
+                        if len(cmps) == 1 and all(isinstance(v, ast.Compare) and len(v.ops) == 1 and isinstance(v.ops[0], ast.NotIn)
+                                                  and norm(v.comparators[0]) in read_vars for v in rest):
+                            t = cmps[0]
                     if isinstance(t, ast.Compare) and len(t.ops) == 1 and isinstance(t.ops[0], ast.NotEq):
                         sides = [t.left, t.comparators[0]]
                         has_new = any(norm(s) == norm(text) for s in sides)
@@ -289,12 +297,20 @@ def rule_ed_after_yield(ctx: RuleContext, p: Program, fns: list[FuncInfo], rid: 
         raise AnalysisError(f'ED-AFTER-YIELD: only {n} context managers found (2 confirmed by hand)')
 
 
-def rule_ed_once(ctx: RuleContext, p: Program, rid: str) -> None:
+def _entry(p: Program, fns: Optional[list[FuncInfo]], name: str) -> FuncInfo:
+    if fns:
+        for f in fns:
+            if f.cls is not None and f.cls.name == 'Editor' and f.name == name and f.parent is None:
+                return f
+    return p.method(p.cls('Editor', 'editor'), name)
+
+
+def rule_ed_once(ctx: RuleContext, p: Program, rid: str, fns: Optional[list[FuncInfo]] = None) -> None:
     ctx.rule(rid, 'recursive traversal: the membership test on the map of texts already read dominates read+parse in the '
                   'loop; every path that enters the queue or the maps has passed through os.path.normpath')
     m = p.module('editor')
     ed = p.cls('Editor', 'editor')
-    fn = p.method(ed, 'edit_file_recursive')
+    fn = _entry(p, fns, 'edit_file_recursive')
     loops = [x for x in walk_no_nested(fn.node) if isinstance(x, ast.While)]
     if not loops:
         raise AnalysisError('ED-ONCE: traversal loop not found in edit_file_recursive')
@@ -360,11 +376,10 @@ def rule_ed_once(ctx: RuleContext, p: Program, rid: str) -> None:
               note=f'{n_src} queue sources, all through normpath')
 
 
-def rule_ed_sets(ctx: RuleContext, p: Program, rid: str) -> None:
+def rule_ed_sets(ctx: RuleContext, p: Program, rid: str, fns: Optional[list[FuncInfo]] = None) -> None:
     ctx.rule(rid, 'after the yield, deletions iterate set(<original texts>) - set(<yielded mapping>) and writes iterate the '
                   'yielded mapping itself (so removed entries are deleted and new entries created)')
-    ed = p.cls('Editor', 'editor')
-    fn = p.method(ed, 'edit_file_recursive')
+    fn = _entry(p, fns, 'edit_file_recursive')
     ys = [y for y in walk_no_nested(fn.node) if isinstance(y, ast.Yield)]
     if len(ys) != 1 or not isinstance(ys[0].value, ast.Name):
         raise AnalysisError('ED-SETS: single `yield <mapping>` not found')
@@ -399,15 +414,100 @@ def rule_ed_sets(ctx: RuleContext, p: Program, rid: str) -> None:
         raise AnalysisError(f'ED-SETS: found {dels} deletion loops and {writes} write loops (1 and 1 confirmed by hand)')
 
 
+class _Subst(ast.NodeTransformer):
+    def __init__(self, mapping: dict[str, ast.AST]) -> None:
+        self.m = mapping
+
+    def visit_Name(self, n: ast.Name) -> ast.AST:
+        if n.id in self.m and isinstance(n.ctx, ast.Load):
+            return copy.deepcopy(self.m[n.id])
+        return n
+
+
+def expanded_view(p: Program, fns: list[FuncInfo]) -> list[FuncInfo]:
+    """the editor's functions with calls to its own private helpers expanded in place (statement-level calls whose callee is a
+    module-level function or a private method of the same class, with no yield and no value-returning / early return): the rules
+    then see one body per public entry point, whatever the entry point delegates to a helper.  Parameters are replaced by the
+    argument expressions -- this is a view for shape and ordering rules, not a semantics-preserving rewrite.  Helpers all of whose
+    call sites were expanded are dropped from the list (they are analysed as part of their callers)."""
+    import dataclasses
+    by_name: dict[str, FuncInfo] = {}
+    for f in fns:
+        if f.parent is None:
+            by_name[('self.' if f.cls is not None else '') + f.name] = f
+
+    def expandable(h: FuncInfo) -> bool:
+        if not h.name.startswith('_') or h.name.startswith('__'):
+            return False
+        if any(isinstance(x, (ast.Yield, ast.YieldFrom)) for x in walk_no_nested(h.node)):
+            return False
+        rets = [x for x in walk_no_nested(h.node) if isinstance(x, ast.Return)]
+        if any(r.value is not None for r in rets):
+            return False
+        body = h.node.body
+        return all(r is body[-1] for r in rets)           # a bare return only as the last statement
+
+    expanded_names: set[str] = set()
+    kept_calls: set[str] = set()
+
+    def expand_block(stmts: list[ast.stmt], owner: FuncInfo, depth: int) -> list[ast.stmt]:
+        out: list[ast.stmt] = []
+        for st in stmts:
+            call = st.value if isinstance(st, ast.Expr) and isinstance(st.value, ast.Call) else None
+            key = norm(call.func) if call is not None else None
+            h = by_name.get(key) if key else None
+            if h is not None and h is not owner and depth < 3 and expandable(h) and not any(isinstance(a, ast.Starred) for a in call.args) \
+                    and not any(k.arg is None for k in call.keywords):
+                a = h.node.args
+                params = [x.arg for x in [*a.posonlyargs, *a.args]]
+                if h.cls is not None:
+                    params = params[1:]
+                mapping: dict[str, ast.AST] = dict(zip(params, call.args))
+                mapping.update({k.arg: k.value for k in call.keywords if k.arg})
+                defaults = dict(zip(params[len(params) - len(a.defaults):], a.defaults))
+                for q in params:
+                    if q not in mapping and q in defaults:
+                        mapping[q] = defaults[q]
+                if all(q in mapping for q in params):
+                    body = [copy.deepcopy(b) for b in h.node.body if not (isinstance(b, ast.Return) and b.value is None)]
+                    body = [b for b in body if not (isinstance(b, ast.Expr) and isinstance(b.value, ast.Constant))]
+                    sub = _Subst(mapping)
+                    body = [ast.fix_missing_locations(ast.copy_location(sub.visit(b), st)) for b in body]
+                    out.extend(expand_block(body, owner, depth + 1))
+                    expanded_names.add(key)
+                    continue
+            if call is not None and key in by_name:
+                kept_calls.add(key)
+            for attr in ('body', 'orelse', 'finalbody'):
+                sub_ = getattr(st, attr, None)
+                if isinstance(sub_, list) and sub_ and isinstance(sub_[0], ast.stmt) and not isinstance(st, (ast.FunctionDef, ast.AsyncFunctionDef, ast.ClassDef)):
+                    setattr(st, attr, expand_block(sub_, owner, depth))
+            for hd in getattr(st, 'handlers', []) or []:
+                hd.body = expand_block(hd.body, owner, depth)
+            out.append(st)
+        return out
+
+    res: list[FuncInfo] = []
+    for f in fns:
+        node = copy.deepcopy(f.node)
+        node.body = expand_block(node.body, f, 0)
+        res.append(dataclasses.replace(f, node=node))
+    # any other use of a helper (as a value, in an expression) keeps it in the list
+    used_otherwise = {norm(c.func) for f in res for c in ast.walk(f.node) if isinstance(c, ast.Call) and norm(c.func) in by_name}
+    drop = {k for k in expanded_names if k not in used_otherwise and k not in kept_calls}
+    return [f for f in res if (('self.' if f.cls is not None else '') + f.name) not in drop or f.parent is not None]
+
+
 def run(ctx: RuleContext, p: Program) -> None:
     m = p.module('editor')
-    fns = [f for f in p.functions_in(m) if f.kind != 'overload']
+    fns = expanded_view(p, [f for f in p.functions_in(m) if f.kind != 'overload'])
+    ctx.stats['editor_functions_analysed'] = [f.qualname for f in fns]
     ctx.try_rule(rule_ed_newline, p, fns, 'ED-NEWLINE')
     ctx.try_rule(rule_ed_dirname, p, fns, 'ED-DIRNAME')
     ctx.try_rule(rule_ed_guard, p, fns, 'ED-GUARD')
     ctx.try_rule(rule_ed_after_yield, p, fns, 'ED-AFTER-YIELD')
-    ctx.try_rule(rule_ed_once, p, 'ED-ONCE')
-    ctx.try_rule(rule_ed_sets, p, 'ED-SETS')
+    ctx.try_rule(rule_ed_once, p, 'ED-ONCE', fns)
+    ctx.try_rule(rule_ed_sets, p, 'ED-SETS', fns)
     ctx.try_rule(rule_ed_fresh, p, fns, 'ED-FRESH')
     ctx.try_rule(rule_ed_order, p, fns, 'ED-ORDER')
     ctx.not_decided += ['glob matching semantics', 'filesystem races', 'what the parser/printer produce (C01)']
